@@ -427,6 +427,10 @@ class CallGraph:
             if isinstance(fn.value, ast.Name) and fn.value.id in self.self_aliases(f) and f.cls is not None:
                 init = self.t.find_method(f.cls, "__init__")
                 if init is not None and any(isinstance(n, ast.Assign) and isinstance(n.value, ast.Name) and n.value.id in init.params() and any(isinstance(t, ast.Attribute) and t.attr == fn.attr and norm(t.value) == "self" for t in n.targets) for n in init.own_nodes()):
+                    ts = self._slot_callables(f.cls, fn.attr)
+                    if ts is not None:
+                        cs.targets, cs.kind, cs.ext = ts, "resolved", "slot:" + fn.attr
+                        return cs
                     cs.kind = "dynamic"
                     return cs
             if self._is_external_object(fn.value, f):
@@ -562,6 +566,94 @@ class CallGraph:
                 return None
             out.append(d)
         return "|".join(sorted(set(out)))
+
+    def _slot_callables(self, ci, slot: str, depth: int = 0) -> Optional[List[Func]]:
+        """The repository functions that can sit in `self.<slot>` of class ci, when the constructor stores one of its
+        parameters there and every construction site passes a local function, None, a parameter that is itself only
+        ever given such values (followed through constructors that hand it on), or nothing (default None).
+        None: some site passes something else."""
+        if depth > 3:
+            return None
+        init = self.t.find_method(ci, "__init__")
+        if init is None:
+            return None
+        pname = None
+        for n in init.own_nodes():
+            if isinstance(n, ast.Assign) and isinstance(n.value, ast.Name) and n.value.id in init.params() and any(isinstance(t, ast.Attribute) and t.attr == slot and norm(t.value) == "self" for t in n.targets):
+                pname = n.value.id
+        if pname is None:
+            return None
+        # the slot must not be written anywhere else
+        for m in ci.all_methods:
+            if m is init or isinstance(m.node, ast.Lambda):
+                continue
+            if any(isinstance(n, ast.Assign) and any(isinstance(t, ast.Attribute) and t.attr == slot for t in n.targets) for n in m.own_nodes()):
+                return None
+        params = [a.arg for a in init.node.args.args if a.arg != "self"]
+        idx = params.index(pname)
+        out: List[Func] = []
+        for h in self.t.funcs:
+            for c in h.own_nodes():
+                if not (isinstance(c, ast.Call) and isinstance(c.func, ast.Name) and self._class_visible(c.func.id, h) is ci):
+                    continue
+                a = c.args[idx] if idx < len(c.args) else None
+                for kw in c.keywords:
+                    if kw.arg == pname:
+                        a = kw.value
+                r = self._callable_values(a, h, depth)
+                if r is None:
+                    return None
+                out += r
+        return list({id(x): x for x in out}.values())
+
+    def _callable_values(self, a: Optional[ast.AST], h: Func, depth: int) -> Optional[List[Func]]:
+        if a is None or (isinstance(a, ast.Constant) and a.value is None):
+            return []
+        if isinstance(a, ast.Lambda):
+            lf = next((l for l in self._all_lambdas() if l.node is a), None)
+            return [lf] if lf is not None else None
+        if isinstance(a, ast.Name):
+            out: List[Func] = []
+            g: Optional[Func] = h
+            found = False
+            while g is not None:
+                if a.id in g.children:
+                    out.append(g.children[a.id])
+                    found = True
+                # plain assignments of the same local: None or another callable value
+                for n in g.own_nodes():
+                    if isinstance(n, ast.Assign) and any(isinstance(t, ast.Name) and t.id == a.id for t in n.targets):
+                        r = self._callable_values(n.value, g, depth + 1)
+                        if r is None:
+                            return None
+                        out += r
+                        found = True
+                if a.id in g.params() and not found:
+                    # handed on: what do the callers / constructors of g pass?
+                    if g.name == "__init__" and g.cls is not None:
+                        ps = [x.arg for x in g.node.args.args if x.arg != "self"]
+                        sub: List[Func] = []
+                        i = ps.index(a.id)
+                        for h2 in self.t.funcs:
+                            for c in h2.own_nodes():
+                                if isinstance(c, ast.Call) and isinstance(c.func, ast.Name) and self._class_visible(c.func.id, h2) is g.cls:
+                                    aa = c.args[i] if i < len(c.args) else None
+                                    for kw in c.keywords:
+                                        if kw.arg == a.id:
+                                            aa = kw.value
+                                    if depth > 3:
+                                        return None
+                                    r = self._callable_values(aa, h2, depth + 1)
+                                    if r is None:
+                                        return None
+                                    sub += r
+                        return out + sub
+                    return None
+                if found:
+                    return out
+                g = g.parent
+            return None
+        return None
 
     def _all_lambdas(self) -> List[Func]:
         c = self.__dict__.get("_lambda_funcs")
